@@ -101,7 +101,7 @@ pub fn scenario_c06() -> impl std::future::Future<Output = ()> + Send {
 
 async fn scenario(prop: u32) {
 	let sweep_base = rt::param("sweep_base").is_some();
-	let entry = *rt::pick("entry", &[Entry::Tower, Entry::Tower, Entry::LowLevel]);
+	let entry = *rt::pick("entry", &[Entry::Tower, Entry::Default, Entry::LowLevel, Entry::Default]);
 	let buf_cap = *rt::pick("buf_cap", &[1024u32, 1, 2, 4]);
 	let cap = *rt::pick("cap", &[1024u32, 0, 1, 2, 3]);
 	let n_conns = rt::draw_range("n_conns", 1, 2) as usize;
@@ -152,6 +152,7 @@ async fn scenario(prop: u32) {
 	rt::event("plan", format!("prop=C{prop:02} entry={entry:?} buf_cap={buf_cap} cap={cap} conns={n_conns} collide={collide} frag={frag:?} steps={steps:?}"));
 
 	let mut world = World::new(SrvCfg { entry, buf_cap, frag, max_subs: cap, auto_sub: false, ..Default::default() });
+	world.start().await;
 	// collide mode: the j-th subscription of every connection is dealt the id 500+j, so that the same id is live on
 	// two connections at once (the harness then issues one subscribe at a time)
 	let mut dealt: Vec<u64> = vec![0; n_conns];
